@@ -59,6 +59,7 @@ MCNext == TLCGet("level") = 1 /\
        \/ \E i \in P, s \in 1..Len(MCScalars), op \in {"nmulq", "qmuln", "qdivn", "ndivq"} : Scalar(op, i, s)
        \/ \E i \in P, t \in 1..NU, op \in {"qmulu", "umulq", "qdivu"} : WithUnit(op, i, t)
        \/ \E i \in P, t \in 1..NU : InUnit(i, t)
+  \/ Group \in {"all", "prefix"} /\ \E t \in 1..NU, b \in BOOLEAN, e \in {-3, 0, 3, 10}, side \in {1, 2} : PrefixOnUnit(t, b, e, side)
 ExportCase == ev.op # "init" => PrintT("@@E " \o ToJson(ev))
 ExportSystem == ev.op = "init" => PrintT("@@SYS " \o ToJson([base |-> BaseSeq, bdim |-> MCbdim, bsize |-> MCbsize,
                       decls |-> Decls, pool |-> MCPool, units |-> MCUnits, scalars |-> MCScalars]))
